@@ -18,11 +18,11 @@ namespace cppcms {
 		}
 		size_t write(char const *pos,size_t len)
 		{
-			output_.write(pos,len);
-			if(!output_)
-				return 0;
+			// the copy must not depend on what happens to the real output: a client that
+			// went away would otherwise leave a cut (or empty) frame to be cached for everybody
 			output_buffer_->push_back(std::string());
 			output_buffer_->back().assign(pos,len);
+			output_.write(pos,len);
 			return len;
 		}
 	private:
